@@ -884,7 +884,50 @@ def run_C15(tier, rng, chk):
             L.append("?s 0 1")
         st.append(("c15_twin_%d" % i, L))
     out = chk.run_stream(st, prop="C15", twin=True)
-    return [fam("twin runs(same stream, different observer sets changing over time; handle index and user-data token of every callback)", st, out, twin=True)]
+    res = [fam("twin runs(same stream, different observer sets changing over time; handle index and user-data token of every callback)", st, out, twin=True)]
+    # re-entrancy: callbacks of instance 0 register / unregister / replace callbacks and set the user
+    # data from INSIDE the callback; the model (Reent.v: step_reent) replays the notifications of
+    # the call through the evolving table; instance 1 gets the same stream without any script and
+    # must show the same getter results
+    rs = []
+    for i in range(scale(tier, 100, 700)):
+        gg = Gen(rng, heavy_special=(i % 5 == 0))
+        L = []
+        for l in gg.preamble(register="none"):
+            L.append(l)
+            L.append("1" + l[1:])
+        for f in range(12):
+            if rng.random() < 0.8:
+                L.append("0 R %d %d" % (f, rng.randrange(1, 4)))
+            if rng.random() < 0.5:
+                L.append("1 R %d %d" % (f, rng.randrange(1, 4)))
+        for cid in (1, 2, 3):
+            for _ in range(rng.choice([0, 1, 1, 2, 3])):
+                if rng.random() < 0.7:
+                    # mostly fields notified later in the same call than the usual trigger (TA/MS -> PS -> AF; PI -> PTY ...)
+                    L.append("0 Y %d R %d %d" % (cid, rng.choice([8, 8, 7, 9, 10, 1, 2, 3, 4, 6, rng.randrange(12)]), rng.randrange(4)))
+                else:
+                    L.append("0 Y %d U %d" % (cid, rng.randrange(1, 1000)))
+        for _ in range(scale(tier, 100, 160)):
+            x = rng.random()
+            if x < 0.15:
+                L.append(rng.choice(["0 R %d %d" % (rng.randrange(12), rng.randrange(4)), "0 U %d" % rng.randrange(1, 1000)]))
+                continue
+            if x < 0.19:
+                l = rng.choice(["0 T %d %d %d" % (rng.randrange(3), rng.randrange(2), rng.randrange(4)), "0 G %d %d" % (rng.randrange(3), rng.randrange(2)),
+                                "0 X %d" % rng.randrange(2), "0 C"])
+            else:
+                l = gg.parse_line(rng.choice([None, None, "0A", "0B", "1A"]))
+            L.append(l)
+            L.append("1" + l[1:])
+            L.append("?s 0 1")
+        rs.append(("c15_reent_%d" % i, L))
+    out = chk.run_stream(rs, prop="-", twin=True)
+    res.append(fam("re-entrant registration (callbacks call rdsparser_register_* / set_user_data on their own parser from inside the callback; "
+                   "model = replay of the call's notifications through the evolving table; twin without scripts)", rs, out, twin=True,
+                   observer="-", owns_events=True,
+                   owned_keys=["pi", "pty", "tp", "ta", "ms", "ecc", "country", "af", "ps", "rt0", "rt1", "ptyn", "cfg", "ret", "alive"]))
+    return res
 
 
 def run_C16(tier, rng, chk):
